@@ -22,6 +22,8 @@ pub mod chan;
 
 #[cfg(feature = "c03")]
 pub mod c03;
+#[cfg(feature = "c10")]
+pub mod c10;
 #[cfg(feature = "c11")]
 pub mod c11;
 #[cfg(feature = "c12")]
